@@ -8,7 +8,13 @@ Property theorems only. Model: `NitroVerif/Model/CheckOp.lean` + `Model/CheckCom
 GraphQL specification, quantifying over all selection sets of the document).
 
 Every theorem has the shape "the model reports no diagnostic ⟹ the rule predicate of the reference validator
-holds". No hypothesis on the schema is needed for the rules proved here.
+holds". The document-level and variable-definition rules need no hypothesis on the schema; the others assume
+`SchemaValid S` (used: no field is named `__typename`; argument and input-field names are unique per
+field / directive / input object). Helper lemmas live in `Lemmas/CheckOp*.lean`: the walk invariant
+(`CheckOpWalk`), spread handler / reachability / closures (`CheckOpReach`), "every selection set of the
+document was visited" (`CheckOpVisited`), directive and argument sites (`CheckOpSites`), applicability of
+spreads (`CheckOpApply`), argument names by counting (`CheckOpArgs`), values and variable usages
+(`CheckOpValues*`), subscription root keys (`CheckOpSubscription`).
 -/
 namespace NitroVerif.CheckOp
 open NitroVerif.Gql NitroVerif.CheckCommon NitroVerif.Valid
